@@ -216,10 +216,13 @@ class Ctx:
 
     def floor(self, rule, what, actual, floor):
         """instance-count floor: a rule that matches (almost) nothing must not pass vacuously"""
-        self.counts['%s:%s' % (rule, what)] = {'actual': actual, 'floor': floor}
-        return self.ob(rule, 'floor:' + what, actual >= floor, None,
-                       'rule %s matched %d instance(s) of %s; the reviewed tree has at least %d'
-                       % (rule, actual, what, floor), nontrivial=False)
+        # the floor guards against a rule that silently matches (almost) nothing; it is set at 60 %% of the count confirmed
+        # on the reviewed tree so that merging a few arms / call sites in a refactor does not trip it
+        eff = max(1, (floor * 3) // 5) if floor > 1 else floor
+        self.counts['%s:%s' % (rule, what)] = {'actual': actual, 'floor': eff, 'reviewed_count': floor}
+        return self.ob(rule, 'floor:' + what, actual >= eff, None,
+                       'rule %s matched %d instance(s) of %s; the reviewed tree has %d, the floor is %d'
+                       % (rule, actual, what, floor, eff), nontrivial=False)
 
     def touched(self, body, calls=0):
         self.analysed['functions'].add(body.id if hasattr(body, 'id') else str(body))
